@@ -21,6 +21,12 @@ Section SubscribeSpec.
   Definition spec_trace (n : nat) : list trace_ev :=
     flat_map (fun k => [Pulled k; Emitted k]) (seq 0 n) ++ [Ended].
 
+  (* what a consumer that keeps reading sees for one event when executions
+     may abort ([data] = [option tree]): a result, or the exception raised by
+     __anext__ -- the errors registered before the abort are not observable *)
+  Definition observe {tree : Type} (r : option tree * list err) : option (tree * list err) :=
+    match fst r with Some d => Some (d, snd r) | None => None end.
+
   (* the documented exception for each refusal condition *)
   Definition documented_class (r : refusal) : exn_class :=
     match r with
